@@ -1044,7 +1044,9 @@ Fixpoint disp_run (next : dcfg -> result route -> dcfg) (cfg : dcfg) (frames : l
 (* ------------------------------------------------------------------ *)
 (* Lock discipline of the PPPoE session's receive path (internal/pppoe/session.go, dhcpv6.go, ra.go; pkg/ppp/fsm.go): which
    mutexes each handler path takes, in which order, and where it may block.  sync.Mutex is not re-entrant. *)
-Inductive lock := LS     (* SessionState.mu *)
+Inductive lock := LD     (* Component.sidMu: PPPoE session-id allocation (discovery stage) *)
+                | LM     (* Component.sessionMu: session indexes *)
+                | LS     (* SessionState.mu *)
                 | LL     (* LCP FSM.mu *)
                 | LI     (* IPCP FSM.mu *)
                 | LV     (* IPv6CP FSM.mu *)
@@ -1054,8 +1056,8 @@ Inductive lop :=
 | NonBlocking      (* select-with-default send, event-bus Publish, timer arm, async dataplane call, go statement *)
 | Blocking.        (* channel operation without default, provider exchange, anything that can wait for another goroutine *)
 Definition lock_eqb (a b : lock) : bool :=
-  match a, b with LS, LS | LL, LL | LI, LI | LV, LV | LR, LR => true | _, _ => false end.
-Definition lrank (l : lock) : N := match l with LS => 0 | LL => 1 | LI => 2 | LV => 3 | LR => 4 end.
+  match a, b with LD, LD | LM, LM | LS, LS | LL, LL | LI, LI | LV, LV | LR, LR => true | _, _ => false end.
+Definition lrank (l : lock) : N := match l with LD => 0 | LM => 1 | LS => 2 | LL => 3 | LI => 4 | LV => 5 | LR => 6 end.
 Definition holds (l : lock) (held : list lock) : bool := existsb (lock_eqb l) held.
 Definition drop (l : lock) (held : list lock) : list lock := filter (fun h => negb (lock_eqb l h)) held.
 (* a path is fine when it never acquires a lock it holds, acquires in increasing rank (one global order: no cyclic wait
@@ -1105,12 +1107,44 @@ Definition head_paths : list (N * list lop) :=
     (* 14 FSM restart timer (time.AfterFunc): FSM.Timeout under the FSM lock only, sends (Publish) *)
     (14, fsm_event LL [NonBlocking; NonBlocking]);
     (* 15 CHAP retry timer *)
-    (15, [Acq LS; NonBlocking; NonBlocking; Rel LS]) ].
+    (15, [Acq LS; NonBlocking; NonBlocking; Rel LS]);
+    (* --- PPPoE discovery (internal/pppoe/component.go), every return path separately --- *)
+    (* 16 handlePADI: no lock; PADO published.  17 PADI / PADR rejected early (tags, cookie, group): nothing held *)
+    (16, [NonBlocking]); (17, []);
+    (* 18 handlePADR, no free session id: sidMu, allocateSessionIDLocked (sessionMu read-locked per probe), error return *)
+    (18, [Acq LD; Acq LM; Rel LM; Rel LD]);
+    (* 19 handlePADR, session created: id allocated and indexed under sidMu, then PADS, then sess.up() (LCP Open/Up) *)
+    (19, [Acq LD; Acq LM; Rel LM; NonBlocking; Acq LM; Rel LM; Rel LD; NonBlocking; Acq LS] ++ fsm_event LL [NonBlocking] ++ [Rel LS]);
+    (* 20 handlePADR, PADS could not be sent: error return after both locks were released *)
+    (20, [Acq LD; Acq LM; Rel LM; NonBlocking; Acq LM; Rel LM; Rel LD; NonBlocking]);
+    (* 21 handlePADT, unknown session / not the owner.  22 owner: indexes updated, then terminate() *)
+    (21, [Acq LM; Rel LM]);
+    (22, [Acq LM; Rel LM; Acq LS; NonBlocking] ++ fsm_event LI [] ++ fsm_event LV [] ++ fsm_event LL [] ++ [NonBlocking; Rel LS]);
+    (* 23 handleSession: lookup under sessionMu (read), then handlePPP *)
+    (23, [Acq LM; Rel LM; Acq LS] ++ fsm_event LL [NonBlocking; NonBlocking] ++ [Rel LS]) ].
 (* the two seeded changes of this class *)
 Definition path_q2 : list lop :=      (* rxjEvent calls the exported Close() while FSM.Input holds f.mu *)
   Acq LS :: Acq LL :: fsm_event LL [NonBlocking] ++ [Rel LL; Rel LS].
+Definition path_r2 : list lop :=      (* handlePADR returns "no free session id" without releasing sidMu (seeded C07_r2) *)
+  [Acq LD; Acq LM; Rel LM].
 Definition path_m2 : list lop :=      (* dispatchDHCPv6 waits for a worker slot under the session lock *)
   [Acq LS; Blocking; NonBlocking; Rel LS].
+
+(* ------------------------------------------------------------------ *)
+(* PPPoE discovery under session-id exhaustion (handlePADR / handlePADT): the observable effect of a history of
+   R = PADR from a new host, F = one id becomes free, T = PADT from the owner of the session created last.
+   State: free ids, sessions created by the history (newest first is irrelevant: only their number matters).
+   Outcome codes: 1 session created, 2 refused (no free id), 4 id freed / session terminated, 5 nothing to do. *)
+Definition padr_step (st : N * N) (e : N) : (N * N) * N :=
+  let '(free, mine) := st in
+  if e =? 82 then (if 0 <? free then ((free - 1, mine + 1), 1) else (st, 2))
+  else if e =? 84 then (if 0 <? mine then ((free + 1, mine - 1), 4) else (st, 5))
+  else ((free + 1, mine), 4).
+Fixpoint padr_trace (st : N * N) (evs : bytes) : list tok :=
+  match evs with
+  | [] => []
+  | e :: r => let '(st', o) := padr_step st e in TN o :: TN (fst st') :: padr_trace st' r
+  end.
 
 (* ------------------------------------------------------------------ *)
 (* one entry point for the driver: entry id, numeric arguments, byte-string arguments *)
@@ -1203,6 +1237,7 @@ Definition run (v : variant) (entry : N) (na : list N) (ba : list bytes) : resul
   if entry =? 70 then Ok (pool_burst (arg 0 na) (arg 1 na)) else
   if entry =? 72 then Ok (rad_history b (skipn 1 ba)) else
   if entry =? 73 then Ok [tbool (rad_parse_ok b); TN (if rad_parse_ok b then rad_declared b else 0)] else
+  if entry =? 74 then Ok (padr_trace (arg 0 na, 0) b) else
   if entry =? 71 then Ok (pool_trace false (arg 0 na) pool0 (events_of b)) else
   if entry =? 61 then rmap (fun x => [tbool x]) (is_authentic_reply b (barg 1 ba) (barg 2 ba)) else
   if entry =? 62 then rmap (fun x => [tbool x]) (validate_request_auth b (barg 1 ba)) else
